@@ -20,13 +20,15 @@ from vf import fm
 from vf.core import Collector, Prop, shard_rng
 
 MIN_LINE = 20
-_TAG_FIRST = re.compile(r"(?:\{%.*?%\}|\{\{.*?\}\}|\{#.*?#\}|<!--.*?-->)\S*")
+_TAG_FIRST = re.compile(r"(?:\{%.*?%\}|\{\{.*?\}\}|\{#.*?#\}|<!--.*?-->)+\S*")
 _END = re.compile(r"(?:^|[^\w]|_)([^\W\d_]+)([.?!]['\"’”)]?|['\"’”)][.?!])$")
 PLAIN = ["a", "to", "the", "word", "longer", "sentence", "alpha", "beta", "gamma", "delta,", "x", "verylongwordhere",
          "(note", "this)", "and", "or", "naïve", "café", "2024", "3.14", "e.g.", "U.S.", "Mr.", "x.", "OK.", "A.", "it's",
          "“quoted”", "state-of-the-art", "semi;", "colon:", "`code`", "[link](http://x.y)", "**bold**", "$5", "US$7", "A$9", "$12"]
 ENDS = ["end.", "stop!", "why?", "done.)", 'said."', "fine.", "okay.", "there?", "yes!", "it.", "so.'", "here.’", "now.”", "été."]
 CONTAINERS = [("", ""), ("- ", "  "), ("> ", "> "), ("1. ", "   "), ("> - ", ">   ")]
+# task-list items: the checkbox is part of the paragraph's first line (it counts towards the 20 characters of clause (b))
+TASK_CONTAINERS = [("- ", "  "), ("1. ", "   "), ("> - ", ">   ")]
 
 
 def is_sentence_end(word: str) -> bool:
@@ -70,6 +72,9 @@ class C11(Prop):
             ii, si = r.choice(CONTAINERS)
             c = {"kind": "placement", "sentences": S, "width": r.choice([25, 30, 40, 60, 72, 88, 100, r.randint(25, 100)]),
                  "ii": ii, "si": si}
+            if r.random() < 0.15:
+                ti, ts = r.choice(TASK_CONTAINERS)
+                c = dict(c, ii=ti, si=ts, sentences=[[r.choice(["[ ]", "[x]"])] + list(S[0])] + [list(x) for x in S[1:]], task=True)
             if r.random() < 0.3:
                 # other white space than one blank between words (a tab, an em space, an ideographic space, two blanks)
                 nw = sum(len(x) for x in S)
@@ -111,7 +116,12 @@ class C11(Prop):
             if r.random() < 0.4 and len(words) > 4:
                 # an inline tag / comment in the middle of the text, never next to a source line break
                 k = r.randint(2, len(words) - 2)
-                words.insert(k, r.choice(["{% x %}", "{{ v }}", "<!-- c -->", "{# n #}"]))
+                first_tag = r.choice(["{% x %}", "{{ v }}", "<!-- c -->", "{# n #}", "{% icon /%}"])
+                words.insert(k, first_tag)
+                if r.random() < 0.5 and len(words) > k + 3:
+                    # ... and later an adjacent open/close pair of the same kind on the same (non-first) output line
+                    pair = {"{%": "{% field %}{% /field %}", "{{": "{{ a }}{{ /a }}", "<!": "<!-- f --><!-- /f -->", "{#": "{# a #}{# /a #}"}[first_tag[:2]]
+                    words.insert(r.randint(k + 2, len(words) - 1), pair)
             top = ii == "" and not lead_src
             if top and r.random() < 0.4 and len(words) > 5:
                 # a word that looks like a list marker or table row (inside a paragraph it is just a word)
@@ -162,7 +172,8 @@ class C11(Prop):
                 col.count("docplacement_skipped_prefix_differs")
                 continue
             body = [lines[0][len(ii):]] + [ln[len(si):] for ln in lines[1:]]
-            if " ".join(body).replace("\\", "").split() != " ".join(b["words"]).replace("\\", "").split():
+            # (compared without white space: a break inside an adjacent tag pair is judged below like any other break)
+            if "".join(" ".join(body).replace("\\", "").split()) != "".join(" ".join(b["words"]).replace("\\", "").split()):
                 col.count("placement_skipped_text_not_reproduced")
                 continue
             if len(body) >= 2:
